@@ -899,6 +899,90 @@ end Slug.Generated
 	writeIfChanged(p, content)
 }
 
+// extractState writes Generated/State.lean: every package-level variable of the repository's packages
+// (blank ones excepted) with the head of its type or initialiser.  The model treats Pack, Unpack, the
+// ignore-rule and the address functions as functions of their arguments; process-level state that they
+// could carry lives in package-level variables, so the list is pinned by a theorem (Props/C16s): a new
+// cache or registry changes the list and the theorem no longer checks.
+func extractState(repo, out string) {
+	pkgs := []string{".", "internal/ignorefiles", "internal/unpackinfo", "sourceaddrs", "sourcebundle"}
+	var rows []string
+	for _, pk := range pkgs {
+		files, _ := filepath.Glob(filepath.Join(repo, pk, "*.go"))
+		sort.Strings(files)
+		for _, fpath := range files {
+			if strings.HasSuffix(fpath, "_test.go") {
+				continue
+			}
+			f, _ := parseFile(fpath)
+			if f == nil {
+				continue
+			}
+			for _, d := range f.Decls {
+				gd, ok := d.(*ast.GenDecl)
+				if !ok || gd.Tok != token.VAR {
+					continue
+				}
+				for _, sp := range gd.Specs {
+					vs, ok := sp.(*ast.ValueSpec)
+					if !ok {
+						continue
+					}
+					for i, n := range vs.Names {
+						if n.Name == "_" {
+							continue
+						}
+						kind := ""
+						if vs.Type != nil {
+							kind = typeHead(vs.Type)
+						} else if i < len(vs.Values) {
+							kind = typeHead(vs.Values[i])
+						}
+						rows = append(rows, fmt.Sprintf("(%s, %s, %s)", leanStr(pk), leanStr(n.Name), leanStr(kind)))
+					}
+				}
+			}
+		}
+	}
+	sort.Strings(rows)
+	content := fmt.Sprintf(`/-! GENERATED by harness/cmd/extract from every non-test .go file of /repo — do not edit.
+Package-level variables (package, name, head of the declared type or of the initialiser). -/
+namespace Slug.Generated
+
+def packageVars : List (String × String × String) := [%s]
+
+end Slug.Generated
+`, strings.Join(rows, ", "))
+	writeIfChanged(filepath.Join(out, "State.lean"), content)
+}
+
+// typeHead: a short description of a type expression or an initialiser
+func typeHead(e ast.Expr) string {
+	switch x := e.(type) {
+	case *ast.Ident:
+		return x.Name
+	case *ast.SelectorExpr:
+		return exprText(x)
+	case *ast.StarExpr:
+		return "*" + typeHead(x.X)
+	case *ast.ArrayType:
+		return "[]" + typeHead(x.Elt)
+	case *ast.MapType:
+		return "map"
+	case *ast.CompositeLit:
+		if x.Type != nil {
+			return typeHead(x.Type)
+		}
+	case *ast.CallExpr:
+		return typeHead(x.Fun) + "()"
+	case *ast.UnaryExpr:
+		return "&" + typeHead(x.X)
+	case *ast.FuncLit:
+		return "func"
+	}
+	return "?"
+}
+
 func writeIfChanged(path, content string) {
 	old, err := os.ReadFile(path)
 	if err == nil && string(old) == content {
@@ -920,6 +1004,7 @@ func main() {
 	extractRemote(*repo, *out)
 	extractLocks(*repo, *out)
 	extractSlug(*repo, *out)
+	extractState(*repo, *out)
 	ig := extractIgnore(*repo)
 	if ig.ok {
 		var esc []string
